@@ -69,12 +69,25 @@ func (t *topicsState) dump(event *api.StateBroadcastEvent) {
 	})
 }
 
+// supersedes tells whether msg is newer than what is stored for topic: a local write stamped
+// by a lagging clock must not override a newer entry merged from another node.
+func (t *topicsState) supersedes(topic []byte, msg *api.RetainedMessage) bool {
+	local, err := t.get(topic)
+	if err != nil || len(local) != 1 {
+		return true
+	}
+	return crdt.IsEntryOutdated(local[0], msg)
+}
+
 func (t *topicsState) Set(message *packet.Publish) error {
 	t.mu.Lock()
 	defer t.mu.Unlock()
 	msg := &api.RetainedMessage{
 		Publish:   message,
 		LastAdded: clock(),
+	}
+	if !t.supersedes(message.Topic, msg) {
+		return nil
 	}
 	err := t.set(message.Topic, msg)
 	if err != nil {
@@ -113,6 +126,9 @@ func (t *topicsState) Delete(topic []byte) error {
 			Payload: nil,
 		},
 		LastDeleted: clock(),
+	}
+	if !t.supersedes(topic, msg) {
+		return nil
 	}
 	err := t.set(topic, msg)
 	if err != nil {
